@@ -24,7 +24,7 @@ RULE = (
     "non-trivial = map has >= 2 tempo events"
 )
 ASSUMPTIONS = [
-    "tolerance (0.5 us + 2 ns) x (governing tempo index + 1), DESIGN.md 3.3",
+    "tolerance (0.5 us + 2 ns) x (tempo segments traversed = governing tempo index, +1 when the tick lies past that tempo event), DESIGN.md 3.3",
     "charts rejected by the parser are counted and skipped (acceptance is owned by C08/C04/C15)",
     "BPM / resolution / gap values outside the alphabets and maps longer than the bound are not explored",
 ]
@@ -76,7 +76,8 @@ obs += [["query2", t, us(q.timestamp_at_tick(t)[0])] for t in queries]
 bad = 0
 for kind, tick, got in obs:
     ex, seg = exact(tick)
-    if ex < 10**12 and (abs(got - ex) > (Fraction(1, 2) + Fraction(2, 1000)) * (seg + 1) or (tick == 0 and got != 0)):
+    n = seg + (1 if tick > tempo[seg][0] else 0)  # segments traversed
+    if ex < 10**12 and (abs(got - ex) > (Fraction(1, 2) + Fraction(2, 1000)) * n or (tick == 0 and got != 0)):
         print("VIOLATED:", kind, "tick", tick, "reported", got, "us; exact", float(ex), "us; governing tempo index", seg)
         bad += 1
 sys.exit(1 if bad else 0)
@@ -162,10 +163,15 @@ def check_map(ctx, tempo, res):
         if ex >= LIMIT:
             continue
         ctx.evaluations += 1
-        if abs(got - ex) > TOL * (seg + 1) or (tick == 0 and got != 0):
+        if abs(got - ex) > TOL * traversed(tempo, seg, tick) or (tick == 0 and got != 0):
             _report(ctx, text, tempo, res, pts, "%s at tick %d: reported %d us, exact %.4f us, governing tempo index %d" % (kind, tick, got, float(ex), seg))
             return
     ctx.hist["segments_%d" % len(tempo)] += 1
+
+
+def traversed(tempo, seg, tick):
+    """Tempo segments traversed from tick 0 to `tick`: the `seg` completed ones plus the partial one."""
+    return seg + (1 if tick > tempo[seg][0] else 0)
 
 
 def _report(ctx, text, tempo, res, pts, msg):
